@@ -449,6 +449,12 @@ def c12_jobs(tier):
     for i in range(15):
         jobs.append(job(MSG, "HCanonicalIdentity", [0, PAYLOAD_KINDS[i], PAYLOAD_KINDS[(i + 6) % 15], 0]))
     jobs.append(job(MSG, "HCanonicalIdentity", [0, 0]))
+    for k in PAYLOAD_KINDS:
+        for tt in sa_tiers(t, k):
+            for perm in ((0, 1, 2) if k == 33 else (0,)):
+                if q and k == 33 and perm != (tt % 3 if tt >= 0 else 1):
+                    continue
+                jobs.append(job(MSG, "HStableLiberal", [tt, perm, k, 0], wall_ms=1200000))
     return jobs
 
 
